@@ -2947,6 +2947,9 @@ def _apply_sifting(
     """Apply Rudell's sifting algorithm."""
     bdd.collect_garbage()
     n = len(bdd)
+    # nothing to sift with fewer than two variables
+    if len(bdd.vars) < 2:
+        return
     # using `set` injects some randomness
     levels = bdd._levels()
     names = set(bdd.vars)
